@@ -411,7 +411,8 @@ def opSPos (op : String) (raw : Impl.RawBoard) (rest : List String) (impl : Stri
               else ok
         else
           -- an error: a violation only if the text is exactly the standard SAN of a (unique) legal move
-          match (Spec.legalMoves p).filter fun m => Spec.San.write p m == t with
+          -- the standard SAN of a move is one of its spellings, so only the denoted moves need be written out
+          match d.filter fun m => Spec.San.write p m == t with
           | [m] => bad ("standard SAN of legal move refused: " ++ fmtMove (concMove m))
           | _ => ok
   | "sanof", [mv] =>
